@@ -106,6 +106,12 @@ func (s *ChattyStrategy) kernel(ctx context.Context) {
 		prevNextRoundView = *u.NextRound
 	}
 
+	if u.NilVotedRound != nil {
+		if !s.broadcastPrecommits(ctx, *u.NilVotedRound) {
+			return
+		}
+	}
+
 	for {
 		select {
 		case <-ctx.Done():
